@@ -524,16 +524,18 @@ class CacheSystem(explore.System):
         self_reuse = reuse
         for slot, (cls, kind) in slots.items():
             want_nt = kind == 'namedtuple'
-            got = (optree.is_namedtuple_class(cls), optree.is_structseq_class(cls),
-                   optree.is_namedtuple_class.__python_implementation__(cls),
-                   optree.is_structseq_class.__python_implementation__(cls),
-                   optree.tree_structure(_inst(cls)).kind.name)
-            want = (want_nt, False, want_nt, False, 'NAMEDTUPLE' if want_nt else 'LEAF')
+            got = outcome_of(lambda cls=cls: (
+                optree.is_namedtuple_class(cls), optree.is_structseq_class(cls),
+                optree.is_namedtuple_class.__python_implementation__(cls),
+                optree.is_structseq_class.__python_implementation__(cls),
+                optree.tree_structure(_inst(cls)).kind.name))
+            want = ('ok', (want_nt, False, want_nt, False, 'NAMEDTUPLE' if want_nt else 'LEAF'))
             if got != want:
                 problems.append(('cache-history', f'after {[*history, ev]}: class of kind {kind} classified {got}, '
                                  f'expected {want} (address reuse events: {self_reuse})', f'{PROP}:cache-history'))
-            if kind == 'namedtuple' and optree.namedtuple_fields(cls) != cls._fields:
-                problems.append(('cache-history-fields', f'fields {optree.namedtuple_fields(cls)}', f'{PROP}:cache-history'))
+            if kind == 'namedtuple' and outcome_of(lambda cls=cls: optree.namedtuple_fields(cls)) != ('ok', cls._fields):
+                problems.append(('cache-history-fields', f'after {[*history, ev]}: namedtuple_fields -> '
+                                 f'{outcome_of(lambda cls=cls: optree.namedtuple_fields(cls))!r}', f'{PROP}:cache-history'))
         CacheSystem.reuse_seen += self_reuse
         del flood
         slots.clear()
